@@ -271,7 +271,7 @@ def clearCell (c : CellV) : CellV := { c with t := "", v := "", is := none, f :=
 /-! ### operations -/
 
 inductive Res
-  | ok | err | style (n : Nat) | cell (c : Option Cell)
+  | ok | err | style (n : Nat) | cell (c : Option Cell) | merges (l : List MObj)
   deriving DecidableEq, Repr
 
 /-- `ws.prepareCell(cell)` followed by an update of the returned `*xlsxC` -/
@@ -354,9 +354,12 @@ def unmergeCell (s : Sheet) (c1 r1 c2 r2 : Nat) : Sheet × Res :=
   if s.merges.isEmpty then (s, .ok) else
   ({ s with merges := (mergeOverlapCells s.merges).filter fun m => !isOverlap q m.ref }, .ok)
 
-/-- the normalisation `GetMergeCells` performs before reporting -/
-def getMerges (s : Sheet) : Sheet × Res :=
-  if s.merges.isEmpty then (s, .ok) else ({ s with merges := mergeOverlapCells s.merges }, .ok)
+/-- what `GetMergeCells` reports: the normalisation of a *copy* of the merge list -/
+def reported (s : Sheet) : List MObj := mergeOverlapCells s.merges
+
+/-- `GetMergeCells`: an observation — the worksheet keeps its (possibly overlapping) list; `UnmergeCell`
+and saving are what normalise the stored list -/
+def getMerges (s : Sheet) : Sheet × Res := (s, .merges (reported s))
 
 inductive Op
   | set (k : Setter) (c r : Nat) (p : Payload)
@@ -435,7 +438,7 @@ def step (s : Sheet) : Op → Sheet × Res
       let q := sortRect c1 r1 c2 r2
       if s.merges.isEmpty then (s, .ok) else
       ({ s with merges := (mergeOverlapCells s.merges).filter fun m => !isOverlap q m.ref }, .ok)
-  | .getMerges => if s.merges.isEmpty then (s, .ok) else ({ s with merges := mergeOverlapCells s.merges }, .ok)
+  | .getMerges => (s, .merges (mergeOverlapCells s.merges))
 
 def run (s : Sheet) (ops : List Op) : Sheet := ops.foldl (fun s o => (step s o).1) s
 
